@@ -1,11 +1,13 @@
 CHECK = {
-        "obligations": ["C13.c13_gapfree", "C13.c13_wire_increasing", "C13.c13_section_exclusive", "C13.c13_order", "C13.c13_call_order", "C13.plsOf_prog", "C13.c13_nonce_unique", "C13.c13_nonce_unique_peer_ids",
+        "obligations": ["C13.c13_gapfree", "C13.c13_wire_increasing", "C13.c13_section_exclusive", "C13.c13_order", "C13.c13_call_order", "C13.plsOf_prog", "C13.c13_nonce_unique", "C13.c13_nonce_unique_peer_ids", "C13T.c13_ids_never_reused", "C13T.gen_tombstones", "C13T.c13_forgetful_witness",
                         "C13.call_wf", "C13.gen_shape", "C13.gen_structure", "C13.gen_ids", "C13.c13_unlocked_witness",
                         "SN.step_inv", "SN.run_inv", "SN.step_Q",
                         "C13.c13_close_last", "C13.c13_one_closing", "C13.call_guarded", "C13.c13_chk_outside_witness", "SN.step_ci", "SN.run_ci"],
-        "scenarios": ["C13"],
+        "lean_module": "CloakModel.Props.C13Tomb",
+        "scenarios": ["C13", "C13late"],
         "reset_ops": ["seq.new"],
-        "rule": "real Session on tapped connections; concurrent Write (1 byte .. several frames) / ReadFrom / Close goroutines on one stream and on 2-6 streams, "
+        "rule": "late frames (scenario C13late, synctest virtual time): a frame of a stream closed at the accepting endpoint (by itself or by the peer) is held back while 3..1000 inactivity periods pass with another stream keeping the session alive, then arrives; the application writes on whatever Accept hands out; every message the endpoint sent is decoded and no (stream id, seq) may occur twice. "
+                "real Session on tapped connections; concurrent Write (1 byte .. several frames) / ReadFrom / Close goroutines on one stream and on 2-6 streams, "
                 "4 encryption methods, 1-4 connections, injected send failures, failed encodes, Close after joined writes; every message decoded with the real deobfuscate. "
                 "Trace validation: the observed order of critical sections is replayed on the Lean interleaving model (seq.spawn/seq.run), which must assign the same numbers. "
                 "non-trivial = script with more than one call; distinct by script",
